@@ -16,6 +16,8 @@ func propC16(r *Report, tier string) {
 	ruleDecoderBijection(r, rule, "mapping", "IndexMappingImpl", nil)
 	ruleAllExportedTagged(r, "K9b-tags-complete", "mapping", "customAnalysis")
 	ruleMappingStoredAndLoaded(r, "K11-mapping-store-load")
+	ruleRegisterAllInDependencyOrder(r, "K5-register-all-dependency-order")
+	ruleCustomComponentRecordedAfterDefine(r, "K5-custom-component-recorded-after-define")
 	ruleOmitemptyNilVsEmpty(r, "K9-omitempty-nil-vs-empty", "mapping", "DocumentMapping", "IndexMappingImpl", "FieldMapping")
 	r.Floor(rule, 40)
 	r.Floor("K9b-tags-complete", 7)
